@@ -89,6 +89,7 @@ def mutation_seeds(tier, seed):
          'obs_md': 'slashkey', 'header': 1},
         {'shape': [3, 3], 'mask': 0b111101111, 'obs_md': 'two', 'samp_md': 'taxonomy', 'header': 2},
         {'shape': [2, 3], 'mask': 0b111000, 'obs_md': 'float', 'samp_md': 'bool', 'header': 1},
+        {'shape': [0, 0], 'mask': 0, 'header': 1},          # the empty table: both axes have length zero
     ]
     h = [
         {'shape': [2, 3], 'mask': 0b101101, 'obs_md': 'taxonomy', 'samp_md': 'two', 'header': 1},
@@ -115,6 +116,13 @@ def validity_seeds(tier, seed):
             out.append({'shape': list(shape), 'mask': mask, 'rot': rot, 'pool': 'hard', 'header': 1,
                         'obs_md': 'taxonomy', 'samp_md': 'text', 'type': VOCAB[(k + seed) % len(VOCAB)]})
             k += 1
+    # tables that are held column-compressed / with unsorted indices when they are written
+    for shape in ((3, 2), (2, 3)):
+        for mask in D.masks(shape):
+            for lay in ('csc', 'unsorted'):
+                out.append({'shape': list(shape), 'mask': mask, 'rot': rot, 'pool': 'hard', 'header': 1,
+                            'layout': lay, 'type': VOCAB[(k + seed) % len(VOCAB)]})
+                k += 1
     for st, mk in itertools.product(D.ID_STYLES, D.MD_KINDS):
         out.append({'shape': [2, 3], 'mask': 0b110101, 'rot': rot, 'pool': 'hard', 'header': 1 + (k % 2),
                     'obs_style': st, 'samp_style': st, 'obs_md': mk,
